@@ -1256,6 +1256,31 @@ fn huge_probes(rep: &mut Report, seed: u64, n_cfg: usize, n_ops: usize) {
     }
 }
 
+// ------------------------------------------------------------------ copies
+/// clone() / clone_from() of a ring buffer mid-history
+fn clone_conformance(rep: &mut Report, seed: u64) {
+    let mut rng = Rng::derive(seed, &[62]);
+    let mut n = 0;
+    for cap in [1usize, 2, 5, 8] {
+        let mkb = |v: u64| Bounded::from_raw_parts((v as usize + 1) % cap, 0, vec![-7i64; cap]);
+        let stepb = |b: &mut Bounded<Vec<i64>>, i: u64| {
+            let r = if i % 3 == 2 { b.pop() } else { b.push(i as i64 + 100) };
+            (r, b.len(), b.get(0).copied(), b.iter().copied().fold(0i64, |a, x| a.wrapping_mul(31).wrapping_add(x)))
+        };
+        n += checks::cloneconf::check_clone_state("bounded", &format!("kind=clone;cap={}", cap), mkb, stepb, rep, &mut rng, 18, 3 * cap + 3, 2 * cap + 3);
+        let mkf = |v: u64| Fixed::from_raw_parts((v as usize + 1) % cap, vec![-7i64; cap]);
+        let stepf = |f: &mut Fixed<Vec<i64>>, i: u64| {
+            if i % 7 == 6 {
+                f.set_first(i as usize);
+            }
+            (f.push(i as i64 + 100), *f.get(i as usize), f.iter().copied().fold(0i64, |a, x| a.wrapping_mul(31).wrapping_add(x)))
+        };
+        n += checks::cloneconf::check_clone_state("fixed", &format!("kind=clone;cap={}", cap), mkf, stepf, rep, &mut rng, 18, 3 * cap + 3, 2 * cap + 3);
+    }
+    rep.eval(n);
+    rep.hit_n("clone_conformance_scripts", n);
+}
+
 // ------------------------------------------------------------------ iterator protocol
 /// `drain()` (the crate's own iterator type) and `iter()` from every small (cap, start, len)
 /// state: nth / fold / count / last / skip / step_by / size_hint / len against plain next().
@@ -1395,6 +1420,8 @@ fn main() {
             rep.exhaustive(format!("Bounded: every (cap 1..={}, start, len) x every operation of the alphabet (indices 0..cap+2 and usize::MAX, usize::MAX-1, isize::MAX) x 4 storage kinds; Fixed: every (N 1..={}, first) x every operation", max_cap, max_cap));
             check_constructors(&mut rep);
             huge_probes(&mut rep, cli.seed, cli.t(9, 45), cli.t(300, 3000));
+            rep.oblige("clone_conformance_scripts", 1);
+            clone_conformance(&mut rep, cli.seed);
             rep.oblige("iterator_conformance_scripts", 1);
             iterator_conformance(&mut rep, cli.seed, cli.t(6, 9), cli.t(24, 120));
             random_histories(cli.seed, 0, cli.t(20_000, 1_000_000), cli.t(64, 1000), cli.t(200, 600), cli.threads, &STORES, &mut rep);
